@@ -588,7 +588,7 @@ def main(tier):
                        "the network is loss-free after the handshake (libcoap has no server-side "
                        "de-duplication; that is C07's finding)"]
     exe = build.ensure_world("asan")
-    n = 800 if tier == "quick" else 12000
+    n = 2000 if tier == "quick" else 12000
     base = common.seed() * 100000
     seeds = []
     for i in range(n):
